@@ -535,8 +535,10 @@ SignalHandler::~SignalHandler() {
   MP_VERIF_POINT("sh.dtor.enter");
   solver_.set_interrupter(0);
   MP_VERIF_POINT("sh.dtor.after_set_interrupter");
-  stop_ = 1;
-  MP_VERIF_POINT("sh.dtor.after_stop1");
+  // stop_ is deliberately left alone: resetting it here would forget
+  // interrupts that were already counted (a third interrupt arriving
+  // after this point must still terminate the process).
+  // The next SignalHandler constructor re-initializes it.
   handler_ = 0;
   MP_VERIF_POINT("sh.dtor.after_handler0");
   signal_message_size_ = 0;
